@@ -4,6 +4,9 @@ package geom
 
 // Exported wrappers for the conformance driver (overlay file, not part of the repository).
 
+// false: the root finder is reachable (the fallback shim of a refactored tree says true and solve cases are not judged)
+var VerifSolveUnavailable = false
+
 func VerifSolve3(c []float64) []float64 { return solve3(c) }
 
 // VerifFitSpline runs FitSpline with zero end tangents, as phase 5 does, and returns the control points of each piece.
